@@ -7,6 +7,7 @@ pub mod c06;
 pub mod c07;
 pub mod c08;
 pub mod c09;
+pub mod c10;
 pub mod c11;
 pub mod c12;
 pub mod c13;
@@ -28,6 +29,7 @@ pub fn run(p: &str, thorough: bool, rest: &[String]) {
         "C07" => c07::run(thorough),
         "C08" => c08::run(thorough),
         "C09" => c09::run(thorough),
+        "C10" => c10::run(thorough),
         "C11" => c11::run(thorough),
         "C12" => c12::run(thorough),
         "C13" => c13::run(thorough),
